@@ -242,6 +242,9 @@ func genCore(c *Ctx, mode string) {
 			c.Em.Emit(rec)
 		}
 	}
+	if mode == "C07" {
+		repeatRaiseProbes(c)
+	}
 	n := map[string]int{"C03": 2000, "C07": 300, "C08": 800, "C14": 1500, "C06": 1200, "C12": 1500}[mode]
 	if c.Thorough() {
 		n *= 10
@@ -384,6 +387,92 @@ func failStopOracle(base, inj Outcome, msg string, kind string) string {
 	return ""
 }
 
+// repeatRaiseProbes (no model involved): an explicitly called function that raises is called several times in one
+// program, each time under another nearest handler (Either step, thoughtful chain, none). The property's wording is
+// per raise: every one of them delivers the same kind and message, however many times it has been raised (and
+// handled) before. The raisers include modules imported by relative path whose top level raises.
+func repeatRaiseProbes(c *Ctx) {
+	dir, err := os.MkdirTemp("", "verif-c07rep-")
+	if err != nil {
+		return
+	}
+	defer os.RemoveAll(dir)
+	write := func(name, content string) { os.WriteFile(filepath.Join(dir, name), []byte(content), 0o644) }
+	prelude := "boom := {|k| \"boom\".p; raise ValueErr.new(\"boom\" + k.S)}\n"
+	type raiser struct{ pre, expr string }
+	rs := []raiser{}
+	for i, inj := range coreInjections {
+		body := "v := " + fmt.Sprintf(inj.text, i)
+		if strings.HasPrefix(inj.text, "(boom(") {
+			body = "raise ValueErr.new(\"boomed\")"
+		}
+		write(fmt.Sprintf("failing%d.pangaea", i), fmt.Sprintf("name := \"mod%d\"\n\"loading\".p\n%s\nafter := 1\n", i, body))
+		rs = append(rs, raiser{"", fmt.Sprintf("import(\"./failing%d\")", i)}, raiser{"", fmt.Sprintf("invite!(\"./failing%d\")", i)})
+		rs = append(rs, raiser{"", fmt.Sprintf(inj.text, i)})
+		rs = append(rs, raiser{fmt.Sprintf("g := {|x| y := x; %s; y}\n", fmt.Sprintf(inj.text, i)), "g(1)"})
+		rs = append(rs, raiser{fmt.Sprintf("o := {m: m{|x| %s}}\n", fmt.Sprintf(inj.text, i)), "o.m(2)"})
+	}
+	write("syntaxbad.pangaea", "a := (1 +\n")
+	write("nested.pangaea", "inner := import(\"./failing0\")\nx := 1\n")
+	write("healthy.pangaea", "name := \"ok\"\nf := {|x| raise TypeErr.new(\"from module \" + x.S)}\n")
+	rs = append(rs, raiser{"", "import(\"./nosuchmodule\")"}, raiser{"", "import(\"./syntaxbad\")"}, raiser{"", "import(\"./nested\")"},
+		raiser{"", "import(\"nosuchstdmodule\")"}, raiser{"h := import(\"./healthy\")\n", "h.f(5)"}, raiser{"", "import(\"./healthy\").f(6)"},
+		raiser{"it := <{|i| yield i if i < 2; recur(i + 1)}>.new(0)\nit.next\nit.next\n", "it.next"},
+		raiser{"", "[1, 2]@{|x| boom(x)}"}, raiser{"", "Int.new(\"z\")"}, raiser{"", "assert(1 == 2)"}, raiser{"", "raise TypeErr.new(\"plain\")"})
+	handlers := []string{"try", "thoughtful", "try", "or"}
+	for i, r := range rs {
+		if c.Shards > 1 && i%c.Shards != c.Shard {
+			continue
+		}
+		run := func(src string) Outcome {
+			it := NewInterp()
+			env := object.NewEnclosedEnv(it.base)
+			env.SetSourceFilePath(filepath.Join(dir, "main.pangaea"))
+			return it.RunIn(env, src, "", 30000)
+		}
+		ref := run(prelude + r.pre + r.expr + "\n")
+		if ref.Kind != "err" {
+			c.Em.Emit(Rec{Src: r.pre + r.expr, Impl: ref.Kind, Skip: "raiser-does-not-raise", Tags: []string{"repeat-raise"}})
+			continue
+		}
+		n := 1 + c.Rng.Intn(4)
+		var sb strings.Builder
+		sb.WriteString(prelude + r.pre)
+		want := []string{}
+		for k := 0; k < n; k++ {
+			switch handlers[(k+i)%len(handlers)] {
+			case "try":
+				sb.WriteString(fmt.Sprintf("e%d := 0.try.{%s}\n[\"#%d\", e%d.val, e%d.err.msg, e%d.err.proto == %s].p\n", k, r.expr, k, k, k, k, ref.ErrKind))
+				want = append(want, fmt.Sprintf("[\"#%d\", nil, %s, true]", k, object.NewPanStr(ref.ErrMsg).Inspect()))
+			case "or":
+				sb.WriteString(fmt.Sprintf("[\"#%d\", 0.try.{%s}.or('dflt)].p\n", k, r.expr))
+				want = append(want, fmt.Sprintf("[\"#%d\", \"dflt\"]", k))
+			default:
+				sb.WriteString(fmt.Sprintf("[\"#%d\", 'fallback~.{%s}].p\n", k, r.expr))
+				want = append(want, fmt.Sprintf("[\"#%d\", \"fallback\"]", k))
+			}
+		}
+		sb.WriteString("\"#mark\".p\n" + r.expr + "\n\"#unreachable\".p\n")
+		want = append(want, "#mark")
+		o := run(sb.String())
+		got := []string{}
+		for _, l := range strings.Split(o.Stdout, "\n") {
+			if strings.HasPrefix(l, "[\"#") || strings.HasPrefix(l, "#") {
+				got = append(got, l)
+			}
+		}
+		rec := Rec{Src: sb.String(), Impl: coreOutcome(o), NT: true, Tags: []string{"repeat-raise", fmt.Sprintf("repeat-%d", n), "outcome-" + o.Kind}}
+		if o.Kind == "syntax" || o.Kind == "fuel" {
+			rec.Skip = "generator-" + o.Kind
+		} else if strings.Join(got, "\n") != strings.Join(want, "\n") {
+			rec.Oracle = fmt.Sprintf("a raise of `%s` (%s: %s) was not delivered to its nearest handler each time: handler lines %q, the property states %q", r.expr, ref.ErrKind, ref.ErrMsg, got, want)
+		} else if !(o.Kind == "err" && o.ErrKind == ref.ErrKind && o.ErrMsg == ref.ErrMsg) {
+			rec.Oracle = fmt.Sprintf("the unhandled raise of `%s` did not end the program with %s: %s after %d handled raises: %s %s %s", r.expr, ref.ErrKind, ref.ErrMsg, n, o.Kind, o.ErrKind, o.ErrMsg)
+		}
+		c.Em.Emit(rec)
+	}
+}
+
 // layoutProbes: programs over objects and maps with several pairs (some values raise in their `==` / `S` hooks, some
 // are unequal, some nested) observed through everything that walks the pairs: equality, printing, keys/values/items,
 // ** unpacking into literals and calls, iteration. Model-free oracle: ten runs give the same output, value and error
@@ -419,6 +508,21 @@ func layoutProbes(c *Ctx) {
 		body := []string{}
 		for j := 0; j < 3; j++ {
 			body = append(body, "1.try.fmap {|w| "+strings.TrimSuffix(ops[c.Rng.Intn(len(ops))], ".p")+"}.A.p")
+		}
+		// keys and parameter names that print alike (floats equal to six decimals, a duplicated keyword parameter)
+		alike := []string{"0.12345611", "0.12345612", "0.12345613", "(0.1 + 0.2)", "0.3", "0.0000001", "0.0000002", "1", "2"}
+		ap := []string{}
+		for j, k := 0, 2+c.Rng.Intn(5); j < k; j++ {
+			ap = append(ap, fmt.Sprintf("%s: %d", alike[c.Rng.Intn(len(alike))], j))
+		}
+		dn := []string{"a", "a", "b", "a"}
+		dp := []string{}
+		for j, k := 0, 2+c.Rng.Intn(3); j < k; j++ {
+			dp = append(dp, fmt.Sprintf("%s: %d", dn[c.Rng.Intn(len(dn))], j))
+		}
+		if c.Rng.Intn(2) == 0 {
+			body = append(body, "m3 := %{"+strings.Join(ap, ", ")+"}\nm3.p\nm3.S.p\nm3.repr.p\n[m3].p\n{a: m3}.p",
+				"fd := {|"+strings.Join(dp, ", ")+"| a}\nfd.p\nfd.S.p\nfd.repr.p\n[fd, <{|"+strings.Join(dp, ", ")+"| yield a}>].p\nfd().p\nfd.kwargs.p")
 		}
 		src := "picky := {'==: m{|o| raise ValueErr.new(\"picky\")}, S: m{\"P\"}}\nsticky := {'==: m{|o| false}, S: m{raise TypeErr.new(\"sticky\")}}\n" +
 			"fk := {|a: 0, b: 0, c: 0| [a, b, c, \\_.keys]}\n" +
